@@ -229,18 +229,21 @@ def rewrite_result(toks, audit, item):
         if k == 'id' and t == 'Result' and i + 1 < n and toks[next_sig(toks, i + 1)][1] == '<':
             a = next_sig(toks, i + 1)
             d = 0
+            pd = 0
             j = a
             commas = 0
             while j < n:
                 tt = toks[j][1]
                 if toks[j][0] == 'p':
-                    if tt == '<':
+                    if tt in '([':
+                        pd += 1
+                    elif tt in ')]':
+                        pd -= 1
+                    elif tt == '<':
                         d += 1
                     elif tt == '>':
                         d -= 1
-                    elif tt == '->':
-                        pass
-                    elif tt == ',' and d == 1:
+                    elif tt == ',' and d == 1 and pd == 0:
                         commas += 1
                 if d <= 0:
                     break
@@ -413,6 +416,17 @@ def loop_body_opens(toks, lo, hi):
     return res
 
 
+def loop_keywords(toks, lo, hi):
+    res = []
+    j = lo
+    while j < hi:
+        k, t = toks[j]
+        if k == 'id' and t in ('for', 'while', 'loop'):
+            res.append(j)
+        j += 1
+    return res
+
+
 def inject(toks, body_open, spec, ret, ats, loops, sigparams, audit, item, verus):
     """returns final text of the item. toks: rule image of the item (sig + body)."""
     inserts = []  # (token index to insert BEFORE, snippet)
@@ -463,13 +477,34 @@ def inject(toks, body_open, spec, ret, ats, loops, sigparams, audit, item, verus
             inserts.append((b + 1, '\n\t\t' + snippet.strip() + '\n\t\t'))
         n_inj += 1
     opens = loop_body_opens(toks, body_open + 1, body_close)
-    for k, snippet in loops:
+    for k, snippet, itname in loops:
         if not _starts_with(snippet, LOOP_STARTS):
             raise ExtractError(f"{item}: injected loop spec must start with invariant/decreases")
         if k < 1 or k > len(opens):
             raise ExtractError(f"ANCHOR-LOST {item}: loop ordinal {k} (function has {len(opens)} loops)")
         inserts.append((opens[k - 1], '\n' + snippet.rstrip() + '\n\t\t'))
         n_inj += 1
+        if itname:
+            # name the ghost iterator of a `for` loop: `for x in <it>: expr`
+            if not re.match(r'^[A-Za-z_][A-Za-z0-9_]*$', itname):
+                raise ExtractError(f"{item}: bad iterator name")
+            kw = loop_keywords(toks, body_open + 1, body_close)[k - 1]
+            if toks[kw][1] != 'for':
+                raise ExtractError(f"ANCHOR-LOST {item}: loop {k} is not a for loop")
+            d = 0
+            j = kw + 1
+            while j < opens[k - 1]:
+                kk, tt = toks[j]
+                if kk == 'p' and tt in '([':
+                    d += 1
+                elif kk == 'p' and tt in ')]':
+                    d -= 1
+                elif kk == 'id' and tt == 'in' and d == 0:
+                    break
+                j += 1
+            if j >= opens[k - 1]:
+                raise ExtractError(f"ANCHOR-LOST {item}: no `in` in for loop {k}")
+            inserts.append((j + 1, f' {itname}:'))
     for anchor, repl in sigparams:
         # closure parameter / return ascriptions: anchor is a closure head like `move |mut coord|`;
         # repl must equal the anchor up to added `: Type`, `-> (r: T)` and ensures/requires clauses
@@ -550,7 +585,7 @@ class Built:
 
 
 def build(template_path, verus=True):
-    lines = open(template_path, encoding='utf-8').read().split('\n')
+    lines = expand_includes(template_path)
     built = Built()
     out_lines = []
     unit_rewrites = []
@@ -626,6 +661,60 @@ def build(template_path, verus=True):
     return built
 
 
+def publicize_fields(toks, audit, item):
+    """R1: private fields of an extracted struct are made `pub` (visibility only; Verus treats a
+    struct with a private field as opaque in public contracts)"""
+    # find the body brace
+    bo = None
+    for j, (k, t) in enumerate(toks):
+        if k == 'p' and t == '{':
+            bo = j
+            break
+        if k == 'p' and t in ('(', ';'):
+            return toks
+    if bo is None:
+        return toks
+    bc = match_close(toks, bo)
+    out = list(toks[:bo + 1])
+    depth = 0
+    expect_field = True
+    n = 0
+    j = bo + 1
+    while j < bc:
+        k, t = toks[j]
+        if expect_field and k not in TRIVIA:
+            if not (k == 'id' and t == 'pub'):
+                out.append(('x', 'pub '))
+                n += 1
+            expect_field = False
+        if k == 'p' and t in OPEN or (k == 'p' and t == '<'):
+            depth += 1
+        elif k == 'p' and t in CLOSE or (k == 'p' and t == '>'):
+            depth -= 1
+        elif k == 'p' and t == ',' and depth == 0:
+            expect_field = True
+        out.append((k, t))
+        j += 1
+    out.extend(toks[bc:])
+    if n:
+        audit.add('R1', f'{n} private fields made pub', '', item)
+    return lex(text(out))
+
+
+def expand_includes(path, depth=0):
+    if depth > 5:
+        raise ExtractError(f"include depth exceeded at {path}")
+    res = []
+    units_dir = os.path.join(os.path.dirname(os.path.dirname(os.path.abspath(__file__))), 'units')
+    for ln in open(path, encoding='utf-8').read().split('\n'):
+        m = re.match(r'^\s*//@include\s+(\S+)\s*$', ln)
+        if m:
+            res.extend(expand_includes(os.path.join(units_dir, m.group(1)), depth + 1))
+        else:
+            res.append(ln)
+    return res
+
+
 def extract_item(kind, kv, sections, unit_rewrites, extra_drop, audit, verus):
     relpath = kv['file']
     scope = kv.get('scope', 'top')
@@ -692,7 +781,12 @@ def extract_item(kind, kv, sections, unit_rewrites, extra_drop, audit, verus):
             mm = re.match(r'^"((?:[^"\\]|\\.)*)"', arg)
             ats.append((d, unq(mm.group(1)), btxt))
         elif d == 'loop':
-            loops.append((int(arg), btxt))
+            la = arg.split()
+            itname = None
+            for x in la[1:]:
+                if x.startswith('iter='):
+                    itname = x[5:]
+            loops.append((int(la[0]), btxt, itname))
         elif d == 'closure':
             mm = re.match(r'^"((?:[^"\\]|\\.)*)"', arg)
             closures.append((unq(mm.group(1)), btxt.strip()))
@@ -732,6 +826,13 @@ def extract_item(kind, kv, sections, unit_rewrites, extra_drop, audit, verus):
         if n_inj:
             audit.add('R8', f'{n_inj} ghost injections', '', item)
     else:
+        if kind == 'struct':
+            t = publicize_fields(t, audit, item)
+        if kind in ('struct', 'enum') and verus:
+            j0 = next_sig(t, 0)
+            if t[j0][1] != 'pub':
+                t = lex('pub ' + text(t))
+                audit.add('R1', 'item made pub', '', item)
         final = text(t)
     info = dict(name=name, emitted_name=as_name or name, kind=kind, file=relpath, scope=scope,
                 src_start=src_start, src_end=src_end, sha=sha, known=kv.get('known'),
